@@ -126,8 +126,48 @@ def fail_scripts(maxf, horizon=4):
             yield tuple(i in pos for i in range(horizon))
 
 
+EMPTY_OPS = [('map_list', ()), ('map_iter', (), None), ('map_iter', (7, 8), 0), ('amap', (), None),
+             ('amap', ((7, 0.0),), 0), ('await', 7, 0.0, True), ('put', 1), ('wait', True), ('wait', False)]
+
+
+def run_empty(aiu, item):
+    """Rounds in which nothing (or little) ends up buffered - empty iterables, producers failing before
+    their first element - ended by the timer or by a forced flush: only 'never empty, never overlapping'."""
+    _, T, first = item
+    st = Stats()
+    last = None
+    for n in (1, 2, 3):
+        for ops in itertools.product(EMPTY_OPS, repeat=n - 1):
+            ops = (first,) + ops
+            if not any(o[0] == 'wait' for o in ops) and n == 3:
+                continue
+            for gs in itertools.product((0.0, T / 4, T + EPS), repeat=n - 1):
+                ev = list(zip((0.0,) + gs, ops))
+                last = ev
+                for dur in (0.0, T / 4):
+                    obs, run = BF.execute(aiu, ev, T, (), dur)
+                    st.executions += 1
+                    st.transitions += len(ev) + len(obs.calls)
+                    st.sig(('empty', tuple(ev), T, dur, BF.describe(obs)))
+                    bad = []
+                    if run.error is not None or run.horizon:
+                        bad.append(('harness_abnormal', f'error={run.error!r}'))
+                    if obs.overlap:
+                        bad.append(('overlapping_invocations', repr([(c['start'], c['end']) for c in obs.calls])))
+                    for c in obs.calls:
+                        if not c['args']:
+                            bad.append(('empty_invocation', f'call#{c["idx"]} at {c["start"]} with an empty set'))
+                    for kind, detail in bad:
+                        st.violation(kind, detail, {'events': ev, 'T': T, 'dur': dur, 'fails': ()})
+    st.sample({'mode': 'rounds of empty / failing producers ended by the timer or a forced flush', 'T': T,
+               'first': first, 'example': last})
+    return st
+
+
 def run_case(item):
     from aiuti import asyncio as aiu
+    if item[0] == 'empty':
+        return run_empty(aiu, item)
     n, T, g1, pats, durs, maxf = item
     st = Stats()
     G = grid(T)
@@ -153,6 +193,8 @@ def run_case(item):
 
 
 def plan(tier):
+    for first in EMPTY_OPS:
+        yield ('empty', 1.0, first)
     Ts = (0.25, 1.0, 3.0)
     full_upto, ns = (4, (1, 2, 3, 4, 5)) if tier == 'quick' else (5, (1, 2, 3, 4, 5, 6))
     for T in Ts:
@@ -176,14 +218,16 @@ def main(tier):
     items = list(plan(tier))
     for st in common.pmap(run_case, items):
         total.merge(st)
-    nmax = max(i[0] for i in items)
+    nmax = max(i[0] for i in items if i[0] != 'empty')
     return common.finish(
         PID, tier, total, t0,
         rule=(f'all arrival sequences of 1..{nmax} immediately-available submissions (plain / map(list) / '
               'map(iterator)) with gaps from {0,T/4,T-e,T,T+e,2.5T}, T in {1/4,1,3}, function duration '
               '{0,T/4,2T}, failure scripts with <= 2 failing invocations; invocation log checked for '
               'overlap, emptiness, no call < T after a preceding submission, idle bursts flushed together '
-              'exactly at last+T (virtual time; ties within e/2 of a timer not judged for timing)'),
+              'exactly at last+T (virtual time; ties within e/2 of a timer not judged for timing); plus all 1..3-step '
+              'programs over empty iterables / producers failing before their first element / wait(cancel) for '
+              'emptiness and overlap'),
         assumptions=['virtual clock', 'helper thread of map(iterator) runs to completion at submit time in '
                      'this single-thread engine (other interleavings: engine B in C03/C16)'])
 
